@@ -139,6 +139,17 @@ CLAIMED = {
         note="The PRNG is the real Mersenne twister seeded from the run seed; no distributional claim; one open "
              "known finding (sample with k > n raises; a pinned test asserts that) is matched narrowly.",
         ref="DESIGN.md §4 C49"),
+    "C16": dict(
+        technique="deterministic simulation (E1): happens-before between tagged chunk executions in the recorded "
+                  "log under simulated schedules with up to 8 workers, optimisation on/off",
+        text="bind/wait_on: the last parent (waited-on) chunk function must end before the first child "
+             "(consumer) chunk function starts, under every simulated completion schedule, with and without "
+             "graph optimisation/fusion; checkpoint computes to None only after every chunk function ran; "
+             "clone computes to the same values with disjoint output keys, independent execution (both copies "
+             "run when computed together) and omit respected; values equal the unmanipulated collections.",
+        note="array/bag/delayed collections only (dataframe needs pyarrow); chunk executions atomic under E1, "
+             "so the order relation is between whole chunk executions.",
+        ref="DESIGN.md §4 C16"),
 }
 
 NA = {
